@@ -200,13 +200,16 @@ PLANS = {
     },
     "C15": {
         "targets": sorted(set(ENCODERS + ENCODING + ["fcp.serde:_decode_struct", "fcp.serde:_decode", "fcp_dbc.dbc_writer:_make_signals"]),
-                          key=lambda t: (ENCODERS + ENCODING + ["fcp.serde:_decode_struct", "fcp.serde:_decode", "fcp_dbc.dbc_writer:_make_signals"]).index(t)),
+                          key=lambda t: (ENCODERS + ENCODING + ["fcp.serde:_decode_struct", "fcp.serde:_decode", "fcp_dbc.dbc_writer:_make_signals"]).index(t))
+                   + ["lemmas:twin_fields", "lemmas:twin_elems", "lemmas:twin_wire", "lemmas:rep_unique", "theorems:C15_twin"],
         "native": "codec",
         "trusted": [
             "prelude fact: sorted(xs, key=field_id) depends only on the multiset of xs when ids are distinct (so two declaration orders of the "
             "same fields give the same sorted list) - not machine-proved",
-            "the step from `every result mentions the declaration order only through sorted_fields` to `permuted twins give equal results` is "
-            "an argument over two runs (a hyperproperty): it is read off the contracts, not proved as a lemma",
+            "for the Python codec the two-run statement IS a theorem (C15_twin: equal bytes from the real encode() under a schema and its "
+            "twin, where twin(f1, f2) says: same struct names, same fields after sorting by id, same enums - the AST-level effect of "
+            "permuting declarations); termination of the structural induction of the twin lemmas is trusted; for the packed layout / DBC "
+            "the same step is read off the contracts (results mention the declaration order only through sorted_fields)",
             "DBC signal tables are a function of the layout (C05: _make_signals maps piece i to signal i); the generated C reads the same "
             "layout (C06); the C++ templates are not reachable (see C03)",
         ],
